@@ -41,7 +41,7 @@ def gen_cases(chk, binp):
 
     def add(**kw):
         c = dict(id="l%d" % len(cases), bin=binp, kind="start", phase="steps", atStep=1, delayUs=0, nsteps=3,
-                 stepMs=120, handMs=150, injectA="", injectB="", bStepMs=0, thirdAfterMs=0, retention=-1, backdateH=0, bVia="")
+                 stepMs=120, handMs=150, injectA="", injectB="", bStepMs=0, thirdAfterMs=0, retention=-1, backdateH=0, bVia="", resave="", freezeMs=0)
         c.update(kw)
         cases.append(c)
 
@@ -68,6 +68,17 @@ def gen_cases(chk, binp):
     # start's probe looks at ANOTHER socket and passes; the first run executes nothing any more (C16_lock_exclusive)
     add(kind="start", phase="shutdown", nsteps=2, stepMs=30, handMs=40, delayUs=rng.randint(0, 60000),
         injectA="unlinkat:delay_enter=300000", bVia="dirlink", tag="other-spelling-closing")
+    # the DAG file is saved again while the first run is active (a new file renamed over the old one: plain rename, or the
+    # real dag store's UpdateSpec): the path names a NEW inode, the first run's flock no longer collides with later starts,
+    # only the socket probe is left. First run (i) responsive, (ii) stopped with SIGSTOP for the second command's whole
+    # life (the probe connects and gets no answer within its 3 s deadline: that must refuse as well)
+    for resave, kind in (("rename", "start"), ("updatespec", "retry"), ("updatespec", "start"), ("rename", "retry")) * (1 if quick else 3):
+        ns = 2
+        add(kind=kind, phase="steps", nsteps=ns, atStep=rng.randint(1, ns), stepMs=250, handMs=60, delayUs=rng.randint(0, 120000),
+            resave=resave, tag="resaved")
+    for resave, kind in (("rename", "start"), ("updatespec", "retry")) + ((("updatespec", "start"), ("rename", "retry")) if not quick else ()):
+        add(kind=kind, phase="steps", nsteps=2, atStep=rng.randint(1, 2), stepMs=250, handMs=60, delayUs=rng.randint(0, 120000),
+            resave=resave, freezeMs=15000, tag="resaved-frozen")
     # the lock holder held between taking the lock and its probe
     for _ in range(2):
         add(phase="prelisten", nsteps=2, delayUs=rng.randint(20000, 120000), injectA="flock:delay_exit=%d:when=1" % rng.randint(150000, 300000), tag="lock-window")
@@ -144,6 +155,13 @@ def eff_t(c, e):
     return e["t"]
 
 
+def timed_out(r, ag):
+    """the probe connected, got no answer, and the process gave up (non-zero exit, socket path never touched)"""
+    evs = [e for e in r["events"] if e["ag"] == ag]
+    return (any(e["ev"] == "connect" and e["res"] == "0" for e in evs) and not any(e["ev"] == "response" for e in evs)
+            and not any(e["ev"] in ("unlinkat", "bind") for e in evs) and r["exit"].get(ag, 0) != 0)
+
+
 def abstract_trace(c, r):
     """(agent, action, time) list derived from the recorded system calls and step markers"""
     acts = []
@@ -153,7 +171,8 @@ def abstract_trace(c, r):
         listened = False
         started = False        # setup / precond / lock already placed
         lockfail = any(e["ev"] == "flock" and e["res"] != "0" for e in evs)
-        answered = any(e["ev"] == "response" for e in evs)
+        # (a probe that times out against a listening endpoint refuses like an answered one)
+        answered = any(e["ev"] == "response" for e in evs) or timed_out(r, ag)
         bindfail = any(e["ev"] == "bind" and e["res"] != "0" for e in evs)
         unlocked = False
         for i, e in enumerate(evs):
@@ -222,8 +241,10 @@ def can_open(r, ag):
 def driver_line(c, r):
     acts = abstract_trace(c, r)
     bsteps = 1 if c["kind"] == "retry" else c["nsteps"]
-    # same file (lock key 0) for all; the socket name is 0 for the plain path and 1 for the other spelling
-    cfg = "0,0,%d,1,%d,0;0,0,%d,1,%d,%d" % (c["nsteps"], can_open(r, "A"), bsteps, can_open(r, "B"), 1 if c.get("bVia") else 0)
+    # lock key (file identity): 0, but 1 for a second command that opens the path after it was saved again (new inode);
+    # socket name: 0 for the plain path, 1 for the other spelling
+    cfg = "0,0,%d,1,%d,0;%d,0,%d,1,%d,%d" % (c["nsteps"], can_open(r, "A"), 1 if (c.get("resave") and r.get("inodeChanged")) else 0,
+                                           bsteps, can_open(r, "B"), 1 if c.get("bVia") else 0)
     if "C" in r["exit"]:
         cfg += ";0,0,%d,1,%d,0" % (c["nsteps"], can_open(r, "C"))
     return "%s agents %s tr %s" % (c["id"], cfg, " ".join("%d:%s" % (AG[a], x) for _, a, x in acts)), acts
@@ -246,7 +267,7 @@ def observed_verdict(c, r, ag):
     answered = any(e["ev"] == "response" for e in evs)
     lockfail = any(e["ev"] == "flock" and e["res"] != "0" for e in evs)
     bindfail = any(e["ev"] == "bind" and e["res"] != "0" for e in evs)
-    if answered or lockfail:
+    if answered or lockfail or timed_out(r, ag):
         cls = "refused"
     elif bindfail:
         cls = "bindFailed"
@@ -274,7 +295,9 @@ def monitor(chk, c, r):
         answered = any(e["ev"] == "response" for e in evs) or any(e["ev"] == "flock" and e["res"] != "0" for e in evs)
         # the first run's endpoint answered the harness both before the second command was launched and after
         # it had exited: a run was active during the second command's whole life
-        active_throughout = x == "B" and c["phase"] in ("steps", "handler", "shutdown") and r["ansBeforeB"] and r["ansAfterB"]
+        oclose0 = [eff_t(c, e) for e in r["events"] if e["ag"] == o and e["ev"] == "unlinkat"][1:2]
+        active_throughout = x == "B" and c["phase"] in ("steps", "handler", "shutdown") and r["ansBeforeB"] and (
+            r["ansAfterB"] or (bool(oclose0) and r.get("bExitT", 0) > 0 and oclose0[0] > r["bExitT"] + 0.01))
         if not (answered or active_throughout):
             continue
         k = kind if x == "B" else "start"
@@ -357,6 +380,8 @@ def probe_position(c, r, x="B", o="A"):
         how = "refused-by-lock"
     elif any(e["ev"] == "response" for e in xe):
         how = "refused-by-probe"
+    elif timed_out(r, x):
+        how = "refused-by-probe-timeout"
     elif any(e["ev"] == "connect" and e["res"] == "0" for e in xe):
         how = "connected-never-answered(listener closing)"
     else:
@@ -492,7 +517,7 @@ def run(chk, replay):
                 witness_both = True
         outcome[oc] = outcome.get(oc, 0) + 1
         if c["phase"] != "after":
-            chk.nontrivial.add((c["kind"], c["phase"], c.get("bVia", ""), pp, oc, c["delayUs"] // 10000))
+            chk.nontrivial.add((c["kind"], c["phase"], c.get("bVia", ""), c.get("resave", ""), bool(c.get("freezeMs")), pp, oc, c["delayUs"] // 10000))
         if len(chk.samples) < 6 and (len(chk.samples) < 3 or vs):
             chk.samples.append({"case": {k: v for k, v in c.items() if k != "bin"}, "probe_position": pp, "outcome": oc,
                                 "model": d and {k: v["pc"] for k, v in d["ag"].items()}, "monitor": [s for s, _ in vs]})
